@@ -14,7 +14,7 @@
    theorems [add_mapped_trait_installs_shadow], [remove_mapped_trait_clears_derived_name],
    [remove_trait_restores_class_rule_for_derived_names] at the end. *)
 From Coq Require Import ZArith List Bool Lia.
-From TV Require Import Common.Harness C13.Model C13.Law C13.Corr C13.Proofs C13.MapProofs C13.ListenerProofs C13.ClassOpProofs C13.ListenerInd C13.ClassOpInd C13.ClassOpSub C13.MapInterleave C13.ClassOpDag C13.ClassOpSubRun C13.ClassOpGlobal C13.ClassOpChain C13.ListLife.
+From TV Require Import Common.Harness C13.Model C13.Law C13.Corr C13.Proofs C13.MapProofs C13.ListenerProofs C13.ClassOpProofs C13.ListenerInd C13.ClassOpInd C13.ClassOpSub C13.MapInterleave C13.ClassOpDag C13.ClassOpSubRun C13.ClassOpGlobal C13.ClassOpChain C13.ListLife C13.ListenerInd2 C13.ClassOpTie.
 Import ListNotations.
 Open Scope Z_scope.
 
@@ -1245,7 +1245,7 @@ Example runs_with_class_operations_nontrivial :
    Val 5; Raise AttributeError; Done; Raise TraitError].
 Proof.
   split.
-  - gtok.
+  - apply tok_of_tokb_fresh; vm_compute; reflexivity.
   - vm_compute. split; reflexivity.
 Qed.
 
@@ -1283,6 +1283,16 @@ Theorem boolean_step_hypothesis_implies_the_general_one :
     tcleanb hh0 objs T insts H t = true -> tclean hh0 objs T insts H t.
 Proof. exact tcleanb_tclean. Qed.
 Print Assumptions boolean_step_hypothesis_implies_the_general_one.
+
+Theorem boolean_run_hypothesis_implies_the_general_one :
+  forall hh objs ts,
+    chainb hh = true ->
+    forallb plain_t (tables hh) = true ->
+    forallb (fun c => Nat.ltb c (length hh)) objs = true ->
+    tokb hh objs (tables hh, map (fun _ => ([], [])) objs) hh ts = true ->
+    tok hh objs (tables hh, map (fun _ => ([], [])) objs) hh ts.
+Proof. exact tok_of_tokb_fresh. Qed.
+Print Assumptions boolean_run_hypothesis_implies_the_general_one.
 
 (* Non-vacuity: the hierarchy and objects of the previous example, a longer run (also C.w =
    Constant(3) on the leaf class) *)
@@ -1382,4 +1392,85 @@ Example list_life_nontrivial :
       (run (snd t) (init_state (fst t)) (pre ++ OAdd [97; 98] PList :: ops ++ [ORem [97; 98]; OGet [97; 98]; OGet ni])) =
   [Done; Raise AttributeError; Done; Done; Done; Val 300; Raise TraitError; Raise AttributeError; Done;
    Raise TraitError; Done; Val 201; Done; Done; Val 300; Val 1; Val 7; Val 7].
+Proof. vm_compute. repeat split; reflexivity. Qed.
+
+(* ------------------------------------------------------------------ *)
+(* Depth round, item 1 continued: TWO instances of a class with a trait_added listener, every
+   interleaving of their histories (Model.step2_l, the runs CorrL evaluates; coq/C13/ListenerInd2.v).
+   The instances share the class dictionary only: a name resolved by the first touch of one
+   instance is a known name for the other, whose listener is not called for it. *)
+Theorem law_holds_on_two_instance_listener_histories :
+  forall h c lst ops i,
+    plain_class h c = true ->
+    (forall n lp, listener lst n = Some lp -> plainp lp = true) ->
+    let t := class_tables h c in
+    lclean_run2 (snd t) lst (init_state2 (fst t)) ops = true ->
+    law_hist2_l lst (spec_rule h c) i l_init l_init (run2_lk lst (snd t) (init_state2 (fst t)) ops) = [].
+Proof. exact law_listener_two_instances. Qed.
+Print Assumptions law_holds_on_two_instance_listener_histories.
+
+(* the checker's law codes for listener classes (CorrL.law_tag_l, any two-instance history) are
+   empty exactly when the un-relabelled law is *)
+Theorem two_instance_listener_law_codes_relabelling_is_faithful :
+  forall lst mr sr h i la lb,
+    C13.CorrL.law_tag_l lst mr sr i la lb h = [] <-> law_hist2_l lst mr i la lb h = [].
+Proof. exact law_tag_l_nil. Qed.
+Print Assumptions two_instance_listener_law_codes_relabelling_is_faithful.
+
+(* Non-vacuity: the class and listener of listener_history_nontrivial, two instances: the second
+   instance finds n_b already resolved (strict class: refused) while the first reads the listener's
+   Int; add_trait replaced by the listener; remove_trait on the instance that has no trait *)
+Example two_instance_listener_history_nontrivial :
+  let t := class_tables [mkClass [([97; 95], PTyped VStr 102)] [1%nat]] 3 in
+  let lst := [([110; 95], PTyped VInt 7); ([107; 95], PConstant 42); ([101; 95], PEvent None)] in
+  let ops := [(false, OSet [110; 95; 98] 101); (true, OGet [110; 95; 98]); (true, OSet [110; 95; 98] 5); (false, OGet [110; 95; 98]);
+              (true, OSet [107; 95; 99] 1); (false, OGet [107; 95; 99]); (false, OAdd [110; 95; 102] (PTyped VStr 102));
+              (true, OSet [110; 95; 102] 101); (false, OSet [110; 95; 102] 101); (true, ORem [110; 95; 98]); (true, OGet [110; 95; 98]);
+              (false, OGet [122])] in
+  lclean_run2 (snd t) lst (init_state2 (fst t)) ops = true /\
+  map (fun x => o_out (snd (fst x))) (run2_lk lst (snd t) (init_state2 (fst t)) ops) =
+  [Raise TraitError; Raise AttributeError; Raise TraitError; Val 7; Raise TraitError; Raise AttributeError; Done;
+   Raise TraitError; Raise TraitError; Val 0; Raise AttributeError; Raise AttributeError].
+Proof. vm_compute. split; reflexivity. Qed.
+
+(* ------------------------------------------------------------------ *)
+(* Depth round, item 2, in the checker's own terms (coq/C13/ClassOpTie.v): CorrT.law_codes — the
+   function ./check evaluates on the implementation's observations (mro_rule on the user classes,
+   CorrT.add_decl, re-labelling) — returns no code on the MODEL's runs: single-inheritance user
+   classes h, any number of fresh objects of any classes, object operations and add_class_trait
+   calls on any user classes, in any order, under the boolean [tokb]. *)
+Theorem checker_law_codes_vanish_on_model_runs_with_class_operations :
+  forall h objs ts,
+    single h = true -> chainb (roots ++ h) = true ->
+    forallb plain_t (tables (roots ++ h)) = true ->
+    forallb (fun c => Nat.ltb c (length (roots ++ h))) objs = true ->
+    forallb (fun t => match t with C13.CorrT.TClass k _ _ => Nat.leb 3 k | _ => true end) ts = true ->
+    tokb (roots ++ h) objs (tables (roots ++ h), map (fun _ => ([], [])) objs) (roots ++ h) ts = true ->
+    C13.CorrT.law_codes (h, objs, run_t (roots ++ h) objs (tables (roots ++ h), map (fun _ => ([], [])) objs) ts) = [].
+Proof. exact checker_law_codes_on_model_runs. Qed.
+Print Assumptions checker_law_codes_vanish_on_model_runs_with_class_operations.
+
+(* on any history (model's or implementation's): the checker's codes are empty exactly when the
+   declarative law with the declarations appended is *)
+Theorem checker_class_operation_law_is_the_declarative_law_on_single_inheritance :
+  forall hist objs h i lss,
+    single h = true -> forallb (fun k => Nat.ltb k (length (roots ++ h))) objs = true ->
+    user_calls hist = true ->
+    C13.CorrT.law_tag_t objs h i lss hist = [] <-> law_hist_ta objs (roots ++ h) i lss hist = [].
+Proof. exact law_tag_t_ta. Qed.
+Print Assumptions checker_class_operation_law_is_the_declarative_law_on_single_inheritance.
+
+Example checker_law_codes_nontrivial :
+  let h := [mkClass [([116; 114; 95], PReadOnly VUndef)] [1%nat]; mkClass [] [3%nat]; mkClass [([122], PAny 5)] [4%nat]] in
+  let objs := [3%nat; 5%nat; 4%nat] in
+  let ts := [C13.CorrT.TClass 3 [116; 95] (PTyped VInt 7); C13.CorrT.TObj 1 (OGet [116; 99]);
+             C13.CorrT.TObj 2 (OSet [116; 99] 101);
+             C13.CorrT.TClass 4 [113] (PAny 8); C13.CorrT.TObj 0 (OGet [113]); C13.CorrT.TObj 1 (OGet [113]);
+             C13.CorrT.TClass 3 [116; 114; 95] PDisallow;
+             C13.CorrT.TClass 3 [122] (PEvent None); C13.CorrT.TObj 1 (OGet [122]); C13.CorrT.TObj 2 (OGet [122]);
+             C13.CorrT.TObj 0 (OSet [116; 114; 120] 101); C13.CorrT.TObj 0 (OSet [116; 114; 120] 102)] in
+  single h = true /\ chainb (roots ++ h) = true /\ forallb plain_t (tables (roots ++ h)) = true /\
+  forallb (fun c => Nat.ltb c (length (roots ++ h))) objs = true /\
+  forallb (fun t => match t with C13.CorrT.TClass k _ _ => Nat.leb 3 k | _ => true end) ts = true /\
+  tokb (roots ++ h) objs (tables (roots ++ h), map (fun _ => ([], [])) objs) (roots ++ h) ts = true.
 Proof. vm_compute. repeat split; reflexivity. Qed.
